@@ -29,9 +29,10 @@ def second_plotfile(rng, pf1, relation):
             shape = tuple(h - l + 1 for l, h in zip(lo, hi)) + (len(names),)
             lev.data.append(gen.gen_payload(rng, shape, pf1.meta['payload'], base))
             base += int(np.prod(shape))
-        if relation == 'same':
+        rel = rng.choice(['same', 'same_files_permuted', 'different']) if relation == 'mixed' else relation
+        if rel == 'same':
             pass
-        elif relation == 'same_files_permuted':
+        elif rel == 'same_files_permuted':
             files = []
             for name, members in lev.files:
                 m = list(members)
@@ -146,7 +147,7 @@ def run_case(seed):
     pf1 = gen.gen_plotfile(rng, ndims=3, max_blocks=2, nfields=(1, 4), nlevels=rng.choice([1, 2, 2, 3]),
                            payload=rng.choice(['ints', 'random', 'special']))
     pf1.fields = [f.replace(' ', '_') for f in pf1.fields]
-    relation = rng.choice(['same', 'same_files_permuted', 'same_files_permuted', 'different', 'different'])
+    relation = rng.choice(['same', 'same_files_permuted', 'same_files_permuted', 'different', 'different', 'mixed', 'mixed', 'mixed'])
     pf2 = second_plotfile(rng, pf1, relation)
     bad_mesh = None
     if rng.random() < 0.2:
